@@ -614,6 +614,10 @@ class List(list, base.Symbolic, pg_typing.CustomTyping):
       if index < 0:
         index += len(self)
       update = self._set_item_without_permission_check(index, value)
+      if update is not None and pg_typing.MISSING_VALUE == value:
+        # Assigning the missing-value marker deletes the element, also when
+        # change notification is disabled.
+        self._sync_children()
       if flags.is_change_notification_enabled() and update:
         self._notify_field_updates([update])
     else:
